@@ -21,8 +21,31 @@ def write_tree(root, files):
     return os.path.join(root, "main.fcp")
 
 
-def load(root_file):
-    """-> ("ok", fcp, dict) | ("err", repr, rendered) | ("raised", msg, None)"""
+_CWD_MODE = [0]
+
+
+def load(root_file, cwd_mode=None):
+    """-> ("ok", fcp, dict) | ("err", repr, rendered) | ("raised", msg, None)
+    The working directory of the process is not part of the property: successive loads run from the harness's directory (an
+    ancestor of the tree), from a directory beside the tree, and from the tree itself with a relative root path."""
+    if cwd_mode is None:
+        _CWD_MODE[0] = (_CWD_MODE[0] + 1) % 3
+        cwd_mode = _CWD_MODE[0]
+    here = os.getcwd()
+    try:
+        if cwd_mode == 1:
+            other = os.path.dirname(os.path.abspath(root_file)) + "-elsewhere"
+            os.makedirs(other, exist_ok=True)
+            os.chdir(other)
+        elif cwd_mode == 2:
+            os.chdir(os.path.dirname(os.path.abspath(root_file)))
+            root_file = os.path.basename(root_file)
+        return _load(root_file)
+    finally:
+        os.chdir(here)
+
+
+def _load(root_file):
     from fcp.parser import get_fcp
     from fcp.error import Logger
     logger = Logger({})
